@@ -27,9 +27,10 @@ namespace {
          // parameters of two different mappings (different parameter lists), then plain values
          auto m1 = lex.make_mapping(*unit.global_region(), ipr::Mapping_level{0});
          auto m2 = lex.make_mapping(*unit.global_region(), ipr::Mapping_level{0});   // same level: positions coincide across the two lists
+         auto m3 = lex.make_mapping(*unit.global_region(), ipr::Mapping_level{1});   // another level, the same positions again
          for (int k = 0; k < np; ++k) {
             auto& name = lex.get_identifier(vh::u8("p" + std::to_string(k)));
-            auto p = (k % 2 ? m2 : m1)->param(name, lex.int_type());
+            auto p = (k % 3 == 0 ? m1 : k % 3 == 1 ? m2 : m3)->param(name, lex.int_type());
             exprs.push_back(p);
          }
          for (int k = 0; k < nv; ++k)
